@@ -38,11 +38,17 @@ func (bufs Buffers) ReadFrom(r io.Reader) (int64, error) {
 	}
 
 	var total int64
-	for _, buf := range bufs {
+	for i, buf := range bufs {
 		for filled := 0; filled < len(buf); {
 			n, err := r.Read(buf[filled:])
 			total += int64(n)
 			filled += n
+			if err == io.EOF && filled == len(buf) && allEmpty(bufs[i+1:]) {
+				// The reader handed over the last bytes asked for together
+				// with io.EOF, which io.Reader allows. Everything has been
+				// read; the EOF belongs to the next read.
+				return total, nil
+			}
 			if (n == 0 && err == nil) || err == io.EOF {
 				return total, io.EOF
 			} else if err != nil {
@@ -51,4 +57,14 @@ func (bufs Buffers) ReadFrom(r io.Reader) (int64, error) {
 		}
 	}
 	return total, nil
+}
+
+// allEmpty reports whether no buffer in bufs has any space to fill.
+func allEmpty(bufs Buffers) bool {
+	for _, buf := range bufs {
+		if len(buf) != 0 {
+			return false
+		}
+	}
+	return true
 }
